@@ -100,7 +100,7 @@ func (a *Agents) Begin(label string, bid, fi int, path string) (string, *CheckRe
 	if rec.Class != "redirect-idp" {
 		return "", rec
 	}
-	ar := f.IdP.Authorize(rec.Location, bid)
+	ar := f.Authorize(rec.Location, bid)
 	a.LastAuth[key(bid, fi)] = ar
 	if ar.Code == "" {
 		return "", rec
